@@ -168,7 +168,61 @@ fn history_independence(ctx: &mut Ctx, alphabet: &[String]) {
                 s.c = (0..r.below(8)).map(|j| SItem::List(vec![SItem::Int(j as i32), SItem::Bool(j % 2 == 0), SItem::Float(fb(j as f32))])).collect();
             }
             s.e.clear();
+            // operand affinity: two states in three have all documented operands present, with small
+            // positive numbers (so that size / index / length operands are meaningful)
+            let fr = crate::frame::frame(name);
+            let (mut ni, mut nf) = (0usize, 0usize);
+            if let Some(fr) = &fr {
+                for (st, n) in fr.needs.iter() {
+                    match st {
+                        St::Int => ni = ni.max(*n),
+                        St::Float => nf = nf.max(*n),
+                        St::Bool => while s.b.len() < *n { s.b.push(r.bool()) },
+                        St::Name => while s.n.len() < *n { s.n.push(gen::name(&mut r)) },
+                        St::Code => while s.c.len() < *n { s.c.push(SItem::List(vec![SItem::Int(1), SItem::Bool(true)])) },
+                        St::Exec => while s.e.len() < *n { s.e.push(SItem::Instr("NOOP".into())) },
+                        St::BV => while s.bv.len() < *n { s.bv.push(gen::bvec(&mut r, 5)) },
+                        St::IV => while s.iv.len() < *n { s.iv.push(gen::ivec(&mut r, 5, Vals::Small)) },
+                        St::FV => while s.fv.len() < *n { s.fv.push(gen::fvec(&mut r, 5, Vals::Small)) },
+                        St::Index => while s.x.len() < *n { s.x.push((0, 3)) },
+                        _ => {}
+                    }
+                }
+            }
+            if k % 3 != 2 && !name.starts_with("LIST.NEIGHBOR") {
+                while s.i.len() < ni {
+                    s.i.push(1);
+                }
+                while s.f.len() < nf {
+                    s.f.push(fb(1.0));
+                }
+                for p in 0..ni {
+                    s.i[p] = 1 + r.below(12) as i32;
+                }
+                for p in 0..nf {
+                    s.f[p] = fb((1 + r.below(16)) as f32 / 8.0);
+                }
+            }
+            // near-duplicates: the same state with ONE numeric operand changed (a cache keyed on a
+            // subset of the operands answers the first of them correctly and the others with a stale
+            // entry)
+            let base = s.clone();
             states.push(s);
+            if k % 2 == 0 {
+                for p in 0..ni.max(1).min(base.i.len()) {
+                    let mut v = base.clone();
+                    v.i[p] = v.i[p].wrapping_add(1 + r.below(5) as i32);
+                    states.push(v);
+                    let mut v = base.clone();
+                    v.i[p] = (v.i[p] - 1 - r.below(3) as i32).max(0);
+                    states.push(v);
+                }
+                for p in 0..nf.max(1).min(base.f.len()) {
+                    let mut v = base.clone();
+                    v.f[p] = fb(fl(v.f[p]) + 0.5);
+                    states.push(v);
+                }
+            }
         }
         let eval_seq = |order: Vec<usize>, states: Vec<Snap>, name: String| -> Vec<(usize, Result<u64, String>)> {
             let (mut is, _n) = new_iset();
@@ -202,6 +256,11 @@ fn history_independence(ctx: &mut Ctx, alphabet: &[String]) {
         .unwrap_or_default();
         let mut by_k_a: BTreeMap<usize, Result<u64, String>> = a.into_iter().collect();
         let by_k_b: BTreeMap<usize, Result<u64, String>> = b.into_iter().collect();
+        if std::env::var("PVMON_DEBUG_HIST").is_ok() && name == "FLOATVECTOR.SINE" {
+            for k in 0..n {
+                eprintln!("SINE k={} i={:?} f={:?} a={:?} b={:?}", k, states[k].i.get(0), states[k].f.iter().take(3).map(|x| fl(*x)).collect::<Vec<_>>(), by_k_a.get(&k), by_k_b.get(&k));
+            }
+        }
         for k in 0..n {
             ctx.rec.count("history_comparisons", 1);
             ctx.rec.count("runs", 2);
